@@ -497,8 +497,8 @@ Proof.
 Qed.
 
 Definition twin_batch : list (item N) :=
-  [mkItem (mkRes [(str "service.name", AStr (str "a"))] (str "urn:1")) (mkScope (str "lib") [] [] []) 1;
-   mkItem (mkRes [(str "service.name", AStr (str "a"))] (str "urn:2")) (mkScope (str "lib") [] [] []) 2].
+  [mkItem (mkRes [(str "service.name", AStr (str "a"))] (str "urn:1")) (mkScope (str "lib") [] [] [] false) 1;
+   mkItem (mkRes [(str "service.name", AStr (str "a"))] (str "urn:2")) (mkScope (str "lib") [] [] [] false) 2].
 Lemma group_own_resource_refuted :
   exists (l : list (item N)) f sgs g xs x,
     In (f, sgs) (group l) /\ In (g, xs) sgs /\ In x xs /\ it_res x <> it_res f.
@@ -664,6 +664,33 @@ Proof.
   intros H. rewrite <- (map_id l) at 2. now apply all2_map_l.
 Qed.
 
+(** the strict reading implies the judged one *)
+Section ExactOk.
+  Context {B : Type} (same : B -> B -> bool) (req : resource -> resource -> bool) (picky : B -> bool).
+  Lemma gather_none (S : scope) (sgs : list (scope * list B)) :
+    existsb (sceq S) (map fst sgs) = false -> gather S sgs = [].
+  Proof.
+    induction sgs as [|[S' xs] r IH]; cbn; intros H; [reflexivity|]. apply orb_false_iff in H as [H1 H2].
+    unfold sceq in *. replace (eqb_of scope_eq_dec S' S) with false; [now apply IH|].
+    symmetry. destruct (eqb_of scope_eq_dec S' S) eqn:E; [|reflexivity]. apply eqb_of_true in E. subst.
+    now rewrite eqb_of_refl in H1.
+  Qed.
+  Lemma gather_unique (sgs : list (scope * list B)) :
+    nodupb sceq (map fst sgs) = true -> forall sg, In sg sgs -> gather (fst sg) sgs = snd sg.
+  Proof.
+    induction sgs as [|[S xs] r IH]; cbn [map nodupb fst]; intros H sg Hin; [destruct Hin|].
+    apply andb_true_iff in H as [H1 H2]. apply negb_true_iff in H1.
+    destruct Hin as [<-|Hin]; cbn [gather flat_map fst snd].
+    - unfold sceq at 1. rewrite eqb_of_refl. fold (gather S r). rewrite (gather_none S r H1). apply app_nil_r.
+    - replace (sceq S (fst sg)) with false; [cbn [app]; now apply IH|].
+      symmetry. destruct (sceq S (fst sg)) eqn:E; [|reflexivity].
+      assert (X : existsb (sceq S) (map fst r) = true) by (apply existsb_exists; exists (fst sg); split; [now apply in_map | exact E]).
+      congruence.
+  Qed.
+  Lemma groups_exact_ok l o : groups_exact same req l o = true -> groups_ok same req picky l o = true.
+  Proof. unfold groups_ok. now intros ->. Qed.
+End ExactOk.
+
 Section Faithful.
   Context {B P : Type} (body_pb : B -> P) (dec : P -> option B) (w : B -> B)
           (same : B -> B -> bool) (req : resource -> resource -> bool) (l : list (item B)).
@@ -714,10 +741,10 @@ Section Faithful.
         apply Hsc in E2; auto. apply same_scope_false in E. congruence.
   Qed.
 
-  Lemma model_groups_ok : groups_ok same req cl (map decoded_group (group l)) = true.
+  Lemma model_groups_exact : groups_exact same req cl (map decoded_group (group l)) = true.
   Proof.
     destruct (group_inv l) as (Hnd & Hall & Hcov). rewrite Forall_forall in Hall.
-    unfold groups_ok. apply andb_true_iff; split; [apply andb_true_iff; split|].
+    unfold groups_exact. apply andb_true_iff; split; [apply andb_true_iff; split|].
     - (* one group per resource *)
       rewrite map_map. apply (nodupb_map req _ gkey); [exact Hnd|].
       intros [f sgs] [f' sgs'] Hf Hf' E. cbn [decoded_group fst] in E. unfold gkey, rkey. cbn [fst].
@@ -791,7 +818,7 @@ Lemma trace_faithful l :
 Proof.
   intros Hg Hc Hs. unfold trace_spec, spans_pb.
   rewrite (decode_model span_pb span_of_pb canon_span l).
-  - apply (model_groups_ok canon_span span_same (res_same strict) l).
+  - apply groups_exact_ok, (model_groups_exact canon_span span_same (res_same strict) l).
     + intros x Hx. apply span_same_refl.
     + now apply req_strict.
     + apply Hs.
@@ -808,7 +835,7 @@ Lemma trace_faithful_as_is l :
 Proof.
   intros Hg Hs. unfold trace_spec, spans_pb.
   rewrite (decode_model span_pb span_of_pb canon_span l).
-  - apply (model_groups_ok _ span_same (res_same lax_F3) l).
+  - apply groups_exact_ok, (model_groups_exact _ span_same (res_same lax_F3) l).
     + intros x Hx. apply span_same_refl.
     + now apply req_lax.
     + apply Hs.
@@ -825,7 +852,7 @@ Lemma log_faithful l :
 Proof.
   intros Hg Hc Hs. unfold log_spec, logs_pb.
   rewrite (decode_model lrec_pb (fun p => Some (lrec_of_pb p)) (fun r => r) l).
-  - apply (model_groups_ok (fun r => r) (lrec_same strict) (res_same strict) l).
+  - apply groups_exact_ok, (model_groups_exact (fun r => r) (lrec_same strict) (res_same strict) l).
     + intros x Hx. apply lrec_same_refl.
     + now apply req_strict.
     + apply Hs.
@@ -852,7 +879,7 @@ Lemma log_faithful_as_is l :
 Proof.
   intros Hg Hs. unfold log_spec, logs_pb.
   rewrite (decode_model lrec_pb (fun p => Some (lrec_of_pb p)) (norm_lrec lax_F4) l).
-  - apply (model_groups_ok _ (lrec_same lax_F34) (res_same lax_F34) l).
+  - apply groups_exact_ok, (model_groups_exact _ (lrec_same lax_F34) (res_same lax_F34) l).
     + intros x Hx. apply lrec_same_as_is.
     + now apply req_lax.
     + apply Hs.
@@ -860,7 +887,7 @@ Proof.
 Qed.
 
 (** full-strength statements fail on the recorded shapes *)
-Definition mk_titem (r : resource) (s : span) : item span := mkItem r (mkScope (str "lib") [] [] []) s.
+Definition mk_titem (r : resource) (s : span) : item span := mkItem r (mkScope (str "lib") [] [] [] false) s.
 Definition ex_res (schema : bytes) : resource := mkRes [(str "service.name", AStr (str "a"))] schema.
 Definition ex_span_plain : span :=
   mkSpan (repeat 1 16) (repeat 2 8) [] (repeat 0 8) false (str "s") 1 10 20 [] [] [] 0 [] 0 0 0.
@@ -872,7 +899,7 @@ Proof.
   split; [|split; vm_compute; reflexivity].
   intros x [<-|[<-|[]]]; reflexivity.
 Qed.
-Definition mk_litem (r : resource) (b : lrec) : item lrec := mkItem r (mkScope (str "lib") [] [] []) b.
+Definition mk_litem (r : resource) (b : lrec) : item lrec := mkItem r (mkScope (str "lib") [] [] [] false) b.
 Lemma log_refuted :
   (exists l, (forall x, In x l -> lrec_guard (it_body x) = true) /\ log_spec strict l (logs_pb l) = false /\
              log_spec (mkLax false true false) l (logs_pb l) = true) /\
@@ -1218,16 +1245,16 @@ Proof.
   unfold members, bucket. f_equal. apply filter_ext. intros x. unfold rs_key. now rewrite rs_eqb_split.
 Qed.
 
-(** If a decoded payload passes [groups_ok] with plain equality, its items are a permutation of
+(** If a decoded payload passes [groups_exact] with plain equality, its items are a permutation of
     the batch (each exactly once) and every item lies under its own resource and scope. *)
-Lemma groups_ok_adequate {B} (D : forall a b : B, {a = b} + {a <> b}) (l : list (item B))
+Lemma groups_exact_adequate {B} (D : forall a b : B, {a = b} + {a <> b}) (l : list (item B))
       (o : list (resource * list (scope * list B))) :
-  groups_ok (eqb_of D) (eqb_of resource_eq_dec) l o = true ->
+  groups_exact (eqb_of D) (eqb_of resource_eq_dec) l o = true ->
   Permutation (flat_map (fun rg => flat_map snd (snd rg)) o) (map it_body l) /\
   forall R sgs S xs b, In (R, sgs) o -> In (S, xs) sgs -> In b xs ->
     exists x, In x l /\ it_body x = b /\ it_res x = R /\ it_scope x = S.
 Proof.
-  unfold groups_ok. intros H. apply andb_true_iff in H as [H Hcov]. apply andb_true_iff in H as [Hr Hg].
+  unfold groups_exact. intros H. apply andb_true_iff in H as [H Hcov]. apply andb_true_iff in H as [Hr Hg].
   rewrite forallb_forall in Hg.
   assert (Hxs : forall R sgs S xs, In (R, sgs) o -> In (S, xs) sgs ->
                   xs = members (eqb_of resource_eq_dec) R S l).
@@ -1263,3 +1290,107 @@ Proof.
     apply andb_true_iff in Hk as [K1 K2]. apply eqb_of_true in K1. apply eqb_of_true in K2.
     exists x. auto.
 Qed.
+
+(** * The judged grouping predicate (a scope's items may be split over several groups of that scope) *)
+Lemma picky_first_perm {A} (p : A -> bool) (m : list A) : Permutation (filter p m ++ filter (fun x => negb (p x)) m) m.
+Proof.
+  induction m as [|a m IH]; cbn; [constructor|]. destruct (p a); cbn.
+  - now constructor.
+  - rewrite <- Permutation_middle. now constructor.
+Qed.
+
+Section SplitAdequate.
+  Context {B : Type} (D : forall a b : B, {a = b} + {a <> b}) (picky : B -> bool).
+  Lemma subseq_b_In a b : subseq_b (eqb_of D) a b = true -> forall x, In x a -> In x b.
+  Proof.
+    revert a; induction b as [|y b IH]; intros a H z Hz.
+    - destruct a; [destruct Hz | discriminate H].
+    - destruct a as [|x a]; [destruct Hz|]. cbn [subseq_b] in H.
+      destruct (eqb_of D x y) eqn:E.
+      + apply eqb_of_true in E. subst y. destruct Hz as [<-|Hz]; [now left | right; now apply (IH a H)].
+      + right. now apply (IH (x :: a) H).
+  Qed.
+  Lemma take_out_perm x b b' : take_out (eqb_of D) x b = Some b' -> Permutation b (x :: b').
+  Proof.
+    revert b'; induction b as [|y b IH]; cbn; intros b' H; [discriminate|].
+    destruct (eqb_of D x y) eqn:E.
+    - apply eqb_of_true in E. inversion H; subst. reflexivity.
+    - destruct (take_out (eqb_of D) x b) as [r|] eqn:T; [|discriminate]. inversion H; subst.
+      rewrite (IH r eq_refl). apply perm_swap.
+  Qed.
+  Lemma same_items_perm a b : same_items (eqb_of D) a b = true -> Permutation a b.
+  Proof.
+    revert b; induction a as [|x a IH]; cbn; intros b H.
+    - destruct b; [constructor | discriminate].
+    - destruct (take_out (eqb_of D) x b) as [b'|] eqn:T; [|discriminate].
+      rewrite (take_out_perm x b b' T). constructor. now apply IH.
+  Qed.
+
+  Notation req := (eqb_of resource_eq_dec).
+  Definition grouping_faithful (l : list (item B)) (o : list (resource * list (scope * list B))) : Prop :=
+    NoDup (map fst o) /\
+    (forall R sgs S xs b, In (R, sgs) o -> In (S, xs) sgs -> In b xs ->
+       exists x, In x l /\ it_body x = b /\ it_res x = R /\ it_scope x = S) /\
+    (forall R sgs S xs, In (R, sgs) o -> In (S, xs) sgs -> Permutation (gather S sgs) (members req R S l)) /\
+    (forall x, In x l -> exists sgs xs, In (it_res x, sgs) o /\ In (it_scope x, xs) sgs).
+
+  Lemma cover_sound (l : list (item B)) (o : list (resource * list (scope * list B))) :
+    forallb (fun x => existsb (fun rg => req (it_res x) (fst rg) &&
+                                         existsb (fun sg => sceq (it_scope x) (fst sg)) (snd rg)) o) l = true ->
+    forall x, In x l -> exists sgs xs, In (it_res x, sgs) o /\ In (it_scope x, xs) sgs.
+  Proof.
+    intros Hcov x Hx. rewrite forallb_forall in Hcov. specialize (Hcov x Hx).
+    apply existsb_exists in Hcov as ([R sgs] & HR & Hc). cbn [fst snd] in Hc.
+    apply andb_true_iff in Hc as [E1 E2]. apply eqb_of_true in E1.
+    apply existsb_exists in E2 as ([S xs] & HS & E2). cbn [fst] in E2. apply eqb_of_true in E2.
+    exists sgs, xs. rewrite E1, E2. auto.
+  Qed.
+  Lemma members_In (l : list (item B)) R S b : In b (members req R S l) -> exists x, In x l /\ it_body x = b /\ it_res x = R /\ it_scope x = S.
+  Proof.
+    unfold members. intros Hb. apply in_map_iff in Hb as (x & Eb & Hx). apply filter_In in Hx as [Hx Hk].
+    apply andb_true_iff in Hk as [K1 K2]. apply eqb_of_true in K1. apply eqb_of_true in K2. exists x. auto.
+  Qed.
+
+  Lemma groups_split_adequate l o : groups_split (eqb_of D) req picky l o = true -> grouping_faithful l o.
+  Proof.
+    unfold groups_split. intros H. apply andb_true_iff in H as [H Hcov]. apply andb_true_iff in H as [Hr Hg].
+    rewrite forallb_forall in Hg.
+    assert (Hsg : forall R sgs S xs, In (R, sgs) o -> In (S, xs) sgs ->
+              subseq_b (eqb_of D) xs (members req R S l) = true /\
+              same_items (eqb_of D) (gather S sgs) (picky_first picky (members req R S l)) = true).
+    { intros R sgs S xs HR HS. specialize (Hg _ HR). cbn [fst snd] in Hg. apply andb_true_iff in Hg as [_ Hg].
+      rewrite forallb_forall in Hg. specialize (Hg _ HS). cbn [fst snd] in Hg.
+      apply andb_true_iff in Hg as [Hg H2]. apply andb_true_iff in Hg as [_ H1]. now split. }
+    split; [now apply (nodupb_NoDup resource_eq_dec)|]. split; [|split].
+    - intros R sgs S xs b HR HS Hb. destruct (Hsg R sgs S xs HR HS) as [H1 _].
+      apply members_In. now apply (subseq_b_In _ _ H1).
+    - intros R sgs S xs HR HS. destruct (Hsg R sgs S xs HR HS) as [_ H2].
+      rewrite (same_items_perm _ _ H2). apply picky_first_perm.
+    - now apply cover_sound.
+  Qed.
+
+  Lemma groups_exact_faithful l o : groups_exact (eqb_of D) req l o = true -> grouping_faithful l o.
+  Proof.
+    unfold groups_exact. intros H. apply andb_true_iff in H as [H Hcov]. apply andb_true_iff in H as [Hr Hg].
+    rewrite forallb_forall in Hg.
+    assert (Hsg : forall R sgs S xs, In (R, sgs) o -> In (S, xs) sgs ->
+              xs = members req R S l /\ gather S sgs = xs).
+    { intros R sgs S xs HR HS. specialize (Hg _ HR). cbn [fst snd] in Hg. apply andb_true_iff in Hg as [Hg Hs].
+      apply andb_true_iff in Hg as [_ Hd].
+      rewrite forallb_forall in Hs. specialize (Hs _ HS). cbn [fst snd] in Hs. apply andb_true_iff in Hs as [_ Ha].
+      split; [now apply all2_eq in Ha | exact (gather_unique sgs Hd (S, xs) HS)]. }
+    split; [now apply (nodupb_NoDup resource_eq_dec)|]. split; [|split].
+    - intros R sgs S xs b HR HS Hb. destruct (Hsg R sgs S xs HR HS) as [E _]. rewrite E in Hb. now apply members_In.
+    - intros R sgs S xs HR HS. destruct (Hsg R sgs S xs HR HS) as [E1 E2]. now rewrite E2, <- E1.
+    - now apply cover_sound.
+  Qed.
+
+  (** A payload that passes the judged predicate (plain equalities): one group per resource; every
+      item of every group is a batch item under a resource and a scope equal to its own; for every
+      resource and scope the groups carrying that scope hold, together, exactly the batch's items of
+      that resource and scope - nothing lost, nothing duplicated; every batch item has a group. *)
+  Lemma groups_ok_adequate l o : groups_ok (eqb_of D) req picky l o = true -> grouping_faithful l o.
+  Proof.
+    unfold groups_ok. intros H. apply orb_true_iff in H as [H|H]; [now apply groups_exact_faithful | now apply groups_split_adequate].
+  Qed.
+End SplitAdequate.
